@@ -78,3 +78,27 @@ def unchecked_utf8(ctx, run, rule, cone, floor=None):
     if floor is not None:
         run.floor(rule, 'from_utf8_unchecked sites in the cone', n, floor)
     return n
+
+
+def forbidden_calls(ctx, run, rule, roots, names, what, why, only=None):
+    """Who-may-call rule: no function of the cone (restricted by `only`) calls any of `names` (callee suffixes)."""
+    roots, cone = cone_of(ctx, roots)
+    n = 0
+    hits = []
+    for p in cone:
+        if only is not None and not only(p):
+            continue
+        b = ctx.facts.bodies[p]
+        if b.kind == 'Promoted':
+            continue
+        n += 1
+        for bb, t in b.calls():
+            nm = callee_name(t)
+            if called(nm, *names):
+                hits.append((p, canon(nm).split('::')[-1], f"{t.get('file')}:{t.get('line')}"))
+    if hits:
+        for p, nm, loc in sorted(set(hits)):
+            run.violation(rule, p, f'forbidden[{nm}]', f'{what} calls `{nm}`: {why}', loc)
+    else:
+        run.proved(rule, roots[0] if roots else '<crate>', f'forbidden[{"/".join(x.split("::")[-1] for x in names[:3])}]', f'none of {len(names)} such primitive(s) is called in the {n} functions of the cone')
+    return n
